@@ -29,7 +29,10 @@ Part 2  All remaining events, sharded with ``vt.par.run_shards``; one case = fre
     why shortest histories suffice: the settings state is a function of the last value set per name.
     (b) costly events (a parse costs 10-90 ms): statements (SELECT with NULLs, sets, positions and
     inventories; aggregate SELECT; empty result; BALANCES; JOURNAL; lower-case SELECT with leading blanks
-    and ``;``; PRINT), ``.run NAME`` for five named queries, legacy ``run NAME``, ``.run "NAME";``,
+    and ``;``; PRINT; four SELECTs whose FROM clause has an UNDATED ``CLOSE`` -- alone, with OPEN ON, with CLEAR,
+    with a filter -- on a ledger with a currency conversion so that the closing entries show), ``.run NAME``
+    for eight named queries (three of them with an undated CLOSE, which -- like a dated one -- must not be
+    replaced by the directive's date), legacy ``run NAME``, ``.run "NAME";``,
     ``.explain``: quick = every state within two ``.set`` changes of the initial one (55),
     thorough = all 768.
     A transition on which the real store leaves everything the model admits (``Desync``) is reported and
@@ -116,6 +119,10 @@ option "title" "C19 ledger"
   Expenses:Food   3.20 EUR
   Assets:Bank
 
+2020-02-20 * "Exchange"
+  Assets:Bank   -110.00 USD
+  Assets:Bank    100.00 EUR @ 1.10 USD
+
 2020-03-01 * "Acme" "Salary"
   Assets:Bank   1000.00 USD
   Income:Job
@@ -125,6 +132,9 @@ option "title" "C19 ledger"
 2020-01-31 query "nofrom" "SELECT date, payee, narration, position WHERE account ~ 'Food'"
 2020-01-31 query "bal" "BALANCES FROM year = 2020"
 2020-02-10 query "cash-flow" "select date, account, position from account ~ 'Bank' where account ~ 'Bank' order by date, account"
+2020-01-31 query "undated" "SELECT account, sum(position) AS total FROM CLOSE GROUP BY account ORDER BY account"
+2020-02-10 query "undated-open" "SELECT account, sum(position) AS total FROM OPEN ON 2020-01-05 CLOSE CLEAR GROUP BY account ORDER BY account"
+2020-01-31 query "undated-filter" "SELECT account, sum(position) AS total FROM year = 2020 CLOSE GROUP BY account ORDER BY account"
 '''
 
 LEDGER_ERRORS = LEDGER + '''
@@ -137,6 +147,8 @@ LEDGER_ERRORS = LEDGER + '''
   Assets:Bank
 '''
 
+_AGG = "SELECT account, sum(position) AS total FROM %s GROUP BY account ORDER BY account"
+
 # (kind, text): what is typed.  kind: select | balances | journal | print
 STATEMENTS = [
     ('select', "SELECT date, payee, narration, tags, position, cost_number, balance WHERE account ~ 'Assets'"),
@@ -146,7 +158,20 @@ STATEMENTS = [
     ('journal', "JOURNAL 'Assets:Bank'"),
     ('select', "  select account, number, currency where currency = 'EUR';"),
     ('print', "PRINT FROM narration ~ 'Lunch|Coffee'"),
+    # an UNDATED CLOSE (parsed as True) is an explicit clause: typed statements keep it (the ledger has a currency
+    # conversion, so closing adds the Equity:Conversions:Current rows) -- alone, with OPEN ON, with CLEAR, with a filter
+    ('select', _AGG % "CLOSE"),
+    ('select', _AGG % "OPEN ON 2020-02-01 CLOSE"),
+    ('select', _AGG % "CLOSE CLEAR"),
+    ('select', _AGG % "year = 2020 CLOSE"),
 ]
+# what a typed statement must NOT print: text -> [(fingerprint, other text)] (diagnosis + non-vacuity)
+STMT_NOT = {
+    _AGG % "CLOSE": [('stmt:undated-close-dropped', "SELECT account, sum(position) AS total GROUP BY account ORDER BY account")],
+    _AGG % "OPEN ON 2020-02-01 CLOSE": [('stmt:undated-close-dropped', _AGG % "OPEN ON 2020-02-01")],
+    _AGG % "CLOSE CLEAR": [('stmt:undated-close-dropped', _AGG % "CLEAR")],
+    _AGG % "year = 2020 CLOSE": [('stmt:undated-close-dropped', _AGG % "year = 2020")],
+}
 
 # name -> (reading, admissible explicit texts; the first one is what the property prescribes where it does)
 NAMED = {
@@ -159,6 +184,10 @@ NAMED = {
     # lower case, FROM + WHERE, name that is no identifier
     'cash-flow': ('default-close', [
         "select date, account, position from account ~ 'Bank' close on 2020-02-10 where account ~ 'Bank' order by date, account"]),
+    # an UNDATED CLOSE is explicit too: it must not be replaced by the directive's date
+    'undated': ('explicit', [_AGG % "CLOSE"]),
+    'undated-open': ('explicit', [_AGG % "OPEN ON 2020-01-05 CLOSE CLEAR"]),
+    'undated-filter': ('explicit', [_AGG % "year = 2020 CLOSE"]),
     # no FROM clause at all: the property's "FROM clause names none" can be read both ways -> either
     'nofrom': ('either', [
         "SELECT date, payee, narration, position WHERE account ~ 'Food'",
@@ -175,6 +204,9 @@ NAMED_PLAIN = {
 }
 NAMED_OVERRIDDEN = {
     'closed': "SELECT account, sum(position) AS total FROM year = 2020 CLOSE ON 2020-03-31 GROUP BY account ORDER BY account",
+    'undated': _AGG % "CLOSE ON 2020-01-31",
+    'undated-open': _AGG % "OPEN ON 2020-01-05 CLOSE ON 2020-02-10 CLEAR",
+    'undated-filter': _AGG % "year = 2020 CLOSE ON 2020-01-31",
 }
 
 CLI_QUERIES = [STATEMENTS[1][1], STATEMENTS[2][1]]
@@ -699,6 +731,9 @@ class ShellProduct:
         fpbase = f'stmt:{kind}:{self.model.format}:{shape}'
 
         def diagnose(observed):
+            for fp, other in STMT_NOT.get(text, ()):
+                if world().render(other, self.model) == observed:
+                    return fp, f' (it is the result of {other!r}: the undated CLOSE clause was dropped)'
             fields = self._as_if(text, observed)
             if fields:
                 return (f'render:{self.model.format}:as-if:' + ','.join(fields),
@@ -1065,7 +1100,7 @@ def run(ctx):
     for _, texts in NAMED.values():
         for t in texts:
             w.result(t)
-    for t in list(NAMED_PLAIN.values()) + list(NAMED_OVERRIDDEN.values()):
+    for t in list(NAMED_PLAIN.values()) + list(NAMED_OVERRIDDEN.values()) + [o for v in STMT_NOT.values() for _, o in v]:
         w.result(t)
     for ev in cheap_events(seed):
         if ev[0] == 'error' and ev[3] is not None:
@@ -1081,7 +1116,12 @@ def run(ctx):
         'closed': w.render(NAMED['closed'][1][0], initial) != w.render(NAMED_OVERRIDDEN['closed'], initial),
         'bal': w.render(NAMED['bal'][1][0], initial) != w.render(NAMED['bal'][1][1], initial),
     }
-    if not all(close_matters[k] for k in ('jan', 'cash-flow', 'closed')):
+    for name in ('undated', 'undated-open', 'undated-filter'):
+        close_matters[name] = w.render(NAMED[name][1][0], initial) != w.render(NAMED_OVERRIDDEN[name], initial)
+    for text, others in STMT_NOT.items():
+        close_matters['typed: ' + text] = all(isinstance(w.render(text, initial), str)
+                                              and w.render(text, initial) != w.render(o, initial) for _, o in others)
+    if not all(v for k, v in close_matters.items() if k != 'bal'):
         raise AssertionError(f'the ledger does not distinguish the CLOSE readings: {close_matters}')
 
     # Part 1: closure of the settings store
